@@ -750,6 +750,18 @@ func r02_4(c *Ctx, rule string) {
 // modeTestKey finds `fi.Mode()&<bit> != 0` style tests in fn for the given
 // os.FileMode bit and returns their keys (normalised so that true = bit set).
 func modeBitTests(c *Ctx, fn *ssa.Function, x *eng.Explorer, bit int64) []string {
+	return modeBitTestsMask(c, fn, x, bit, false)
+}
+
+// modeBitSetTests: also the tests of a wider mask that contains the bit
+// (`mode&(os.ModeDevice|os.ModeNamedPipe) != 0`). Their keys may only be
+// ASSUMED TRUE ("the bit is set, so the wider test succeeds"); a wider test
+// failing says the bit is clear, but the bit being clear does not make it fail.
+func modeBitSetTests(c *Ctx, fn *ssa.Function, x *eng.Explorer, bit int64) []string {
+	return modeBitTestsMask(c, fn, x, bit, true)
+}
+
+func modeBitTestsMask(c *Ctx, fn *ssa.Function, x *eng.Explorer, bit int64, wider bool) []string {
 	var keys []string
 	eng.Instrs(fn, func(in ssa.Instruction) {
 		v, ok := in.(ssa.Value)
@@ -757,7 +769,7 @@ func modeBitTests(c *Ctx, fn *ssa.Function, x *eng.Explorer, bit int64) []string
 			return
 		}
 		_, mask, setWhenTrue, isBT := eng.BitTest(v)
-		if !isBT || mask != bit {
+		if !isBT || (mask != bit && !(wider && mask&bit == bit && mask&^modeType == 0)) {
 			return
 		}
 		// a key whose truth means "bit set"
@@ -812,7 +824,7 @@ func r02_5(c *Ctx, rule string) {
 		name string
 		bit  int64
 	}{{"device", modeDevice}, {"fifo", modeNamedPipe}, {"symlink", modeSymlink}} {
-		keys := modeBitTests(c, hc, x, t.bit)
+		keys := modeBitSetTests(c, hc, x, t.bit)
 		if len(keys) == 0 {
 			c.R.Fail(rule, base+"/not-"+t.name, c.P.Pos(hc.Pos()), "HandleChange has no test of the "+t.name+" mode bit: such entries fall through to the regular-file arm")
 			continue
